@@ -24,3 +24,20 @@ func (m *Machine) stringerBytes(a Iface, verb byte, spec string) ([]*sym.Term, b
 	}
 	return nil, false
 }
+
+// hexBytes: lower-case hexadecimal text of (possibly symbolic) bytes, two digits each.
+func (m *Machine) hexBytes(bs []*sym.Term) []*sym.Term {
+	c := m.ctx
+	digit := func(n *sym.Term) *sym.Term { // n: 4-bit; result: an ite tree with constant leaves
+		acc := c.BV(8, 'f')
+		for v := 14; v >= 0; v-- {
+			acc = c.Ite(c.Eq(n, c.BV(4, uint64(v))), c.BV(8, uint64("0123456789abcdef"[v])), acc)
+		}
+		return acc
+	}
+	out := make([]*sym.Term, 0, 2*len(bs))
+	for _, b := range bs {
+		out = append(out, digit(c.Extract(b, 7, 4)), digit(c.Extract(b, 3, 0)))
+	}
+	return out
+}
